@@ -188,7 +188,9 @@ type storeSession struct {
 	ff     *faultFile
 	stream *faultStream
 	prev   []byte
-	own    *os.File // kind 5: the caller-owned file handed to blockstore.OpenReadWriteFile (stays open)
+	own    *os.File // kind 5/6: the caller-owned file handed to blockstore.OpenReadWriteFile (stays open)
+	ownSeeks bool   // kind 6: the caller moves the cursor of its file before every reopen
+	nReopen  int
 
 	finalizeAt []int // number of intercepted calls when each blockstore finalize operation started
 	fsizeLimit int64 // > 0: RLIMIT_FSIZE during the next blockstore finalize operation
@@ -434,14 +436,17 @@ func runStoreImplX(work string, kind uint64, o wOpts, roots []cid.Cid, faults []
 		}
 		s.ff = &faultFile{f: f, faults: faults}
 		s.wc, openErr = storage.NewWritable(noTruncFile{s.ff}, roots, o.v2()...)
-	case 5:
+	case 5, 6:
 		// blockstore.OpenReadWriteFile: the CALLER owns the *os.File; Close/Discard leave it open (it is
-		// closed when the session ends).  From here on the session is driven like kind 0.
+		// closed when the session ends).  From here on the session is driven like kind 0, except that a
+		// "reopen" goes through OpenReadWriteFile on the SAME handle; kind 6: the caller moves the
+		// handle's cursor before every reopen (the cursor is not part of the model)
 		f, err := os.OpenFile(s.path, os.O_RDWR|os.O_CREATE, 0o666)
 		if err != nil {
 			panic(err)
 		}
 		s.own = f
+		s.ownSeeks = kind == 6
 		s.bs, openErr = blockstore.OpenReadWriteFile(f, roots, o.v2()...)
 		kind = 0
 	}
@@ -570,9 +575,27 @@ func runStoreImplX(work string, kind uint64, o wOpts, roots []cid.Cid, faults []
 			if s.ff != nil {
 				rest = s.ff.faults
 			}
+			own := s.own
+			s.own = nil // closeHandles must not close the caller's file
 			s.closeHandles()
+			s.own = own
 			var err error
-			if kind == 0 {
+			if own != nil {
+				// the same *os.File again; wherever its cursor stands
+				if s.ownSeeks {
+					s.nReopen++
+					if s.nReopen%2 == 1 {
+						_, err = own.Seek(0, io.SeekEnd)
+					} else {
+						st, _ := own.Stat()
+						_, err = own.Seek((st.Size()*int64(s.nReopen*7+3)/23)%(st.Size()+1), io.SeekStart)
+					}
+					if err != nil {
+						panic(err)
+					}
+				}
+				s.bs, err = blockstore.OpenReadWriteFile(own, roots2, o2.v2()...)
+			} else if kind == 0 {
 				s.bs, err = blockstore.OpenReadWrite(s.path, roots2, o2.v2()...)
 				if err == nil {
 					s.interposeFaults(rest)
